@@ -95,7 +95,7 @@ RULE = ("E3: every filter expression built by <=2 (quick) / <=3 (thorough) appli
 EXHAUSTIVE = True
 EXHAUSTIVE_SCOPE = {
     "quick": "E3 depth 2 over {c0,c1,True,False}; E2 14 structures x 10^3 op sequences; E1 28x28 binding pairs x 14 key strings x 2 timeout modes; E4 7x7 pairs x 6 handler behaviours x 84 key strings (len<=3 over 4 keys)",
-    "thorough": "E3 depth 3 over {c0,c1,True}; E2 14 structures x 10^4 op sequences; E1 108x108 binding pairs x 30 key strings x 3 timeout modes + 12000 sampled triples/quadruples; E4 18x18 pairs x 6 behaviours x 340 key strings (len<=4)"}
+    "thorough": "E3 depth 3 over {c0,c1,True}; E2 14 structures x 10^4 op sequences; E1 108x108 binding pairs x 30 key strings x 3 timeout modes + 12000 sampled triples/quadruples; E4 18x18 pairs x 6 behaviours x 84 key strings (len<=3 over 4 keys)"}
 TRUSTED = ["harness/c04.py compares, after every operation, the printed structure of filters (incl. object identity of "
            "memoised results), binding lists, versions, and for every process_keys call the sequence of queue pops, "
            "before/after events, handler calls with key_sequence and previous_key_sequence, dropped keys, keys pushed "
@@ -1338,7 +1338,7 @@ def e3_cases(tier, rng):
 def e4_cases(tier, rng):
     """who exits / raises, and what happens to the keys that are still buffered or queued"""
     pats = QUICK_PATS if tier == "quick" else THOROUGH_PATS
-    strings = list(key_strings(3 if tier == "quick" else 4, alphabet=(2, 3, 5, 1)))
+    strings = list(key_strings(3, alphabet=(2, 3, 5, 1)))
     behaviours = [({"exit": True}, None), (None, {"exit": True}), ({"outcome": "raise"}, None),
                   (None, {"outcome": "ro"}), ({"exit": True, "feeds": [[False, [[2, 900]]]]}, None),
                   ({"exit": True}, {"outcome": "raise"})]
